@@ -339,3 +339,16 @@ func (s *Sim) reportQuery(name, kind, msg string, detail map[string]any) {
 	detail["last_steps"] = s.Log[from:n]
 	s.Ctx.Viol([]string{"C19"}, fmt.Sprintf("%s|%s|after:%s", kind, name, last), msg, detail)
 }
+
+// QueryRows runs one SQL statement over (b, c) and returns the canonical rows in result order (or the error text).
+func (s *Sim) QueryRows(b, c int, stmt string, args map[string]any, useBytes bool) ([]string, string) {
+	rows, err := s.runQuery(b, c, stmt, args, useBytes)
+	if err != nil {
+		return nil, "error"
+	}
+	out := make([]string, len(rows))
+	for i, r := range rows {
+		out[i] = qrowKey(r)
+	}
+	return out, ""
+}
